@@ -23,10 +23,12 @@ RULE = (
 ASSUMPTIONS = [
     "the in-memory API result (itself judged by C01-C10) is the reference side of the differential; vf/ref/ips.py reads the patches",
     "the copier header applies to IPS output only (the SFC writer has no such shift in the property)",
+    "the working directory is the same for both sides; a third of the front-end runs name the source as proj/src/t.s with a decoy of every "
+    "referenced file next to it (quoted paths are resolved as for the in-memory API, which has no source directory)",
 ]
 MAPPINGS = ["low", "low2", "high"]
 DEFINES = [[], ["DEFA=5"], ["DEFA=0x1234"], ["DEFA=7", "DEFB=0x20", "DEFC=0"]]
-WEIGHTS = dict(ins=6, data=5, label=4, block=1.5, scope=1, macro=0.8, call=1.5, for_=1, if_=0.6, assign=1, sym=0.8, org=1.2, reloc=0.3, ascii=0.6, incbin=0.4, branch=0.0)
+WEIGHTS = dict(ins=6, data=5, label=4, block=1.5, scope=1, macro=0.8, call=1.5, for_=1, if_=0.6, assign=1, sym=0.8, org=1.2, reloc=0.3, ascii=0.6, incbin=0.4, branch=0.0, include=0.5)
 
 
 def plan(tier: str, seed: int) -> list[dict]:
@@ -99,15 +101,18 @@ def check_symbols(res: Res, fr, labels: list, wit: dict) -> None:
         res.violate("symbol-file", f"symbol file lists {len(got)} label(s), expected {len(want)}; missing {missing} unexpected {extra}", wit)
 
 
-def check_point(res: Res, p: dict, fmt: str, mapping: str, copier: bool, defs: list[str], front: str) -> None:
+def check_point(res: Res, p: dict, fmt: str, mapping: str, copier: bool, defs: list[str], front: str, layout: str | None = None) -> None:
     src, files = materialise(p)
+    if layout is None:
+        layout = "subdir" if (len(src) + len(front)) % 3 == 0 else "cwd"
     dvals = parse_defs(defs)
     prefix = "".join(f"{k} := {v}\n" for k, v in dvals.items())
     ref = assemble(prefix + src, files=files or None, rom=mapping)
     key = (src, fmt, mapping, copier, tuple(defs), front)
     wit = {"src": src, "files": {k: (v if isinstance(v, str) else bytes(v).hex()) for k, v in files.items()}, "fmt": fmt, "mapping": mapping, "copier": copier,
-           "defs": defs, "front": front}
+           "defs": defs, "front": front, "layout": layout}
     res.case(key, ref.ok)
+    res.see("source_layouts", (layout, bool(files)))
     res.see("lattice_points", (fmt, mapping, copier, len(defs)))
     if not ref.ok:
         res.count("reference_rejects_unjudged")
@@ -116,11 +121,11 @@ def check_point(res: Res, p: dict, fmt: str, mapping: str, copier: bool, defs: l
             res.violate("mapping-low2-missing", f"the in-memory assembler itself has no bus for mapping low2: {ref.err_text[:120]}", wit)
         return
     if front == "api":
-        fr = file_api("patch" if fmt == "ips" else "sfc", src, files, mapping, copier, dvals, want_symbols=True)
+        fr = file_api("patch" if fmt == "ips" else "sfc", src, files, mapping, copier, dvals, want_symbols=True, layout=layout)
     elif front == "cli":
-        fr = cli_inprocess(fmt, src, files, mapping, copier, defs)
+        fr = cli_inprocess(fmt, src, files, mapping, copier, defs, layout=layout)
     else:
-        fr = cli_subprocess(fmt, src, files, mapping, copier, defs)
+        fr = cli_subprocess(fmt, src, files, mapping, copier, defs, layout=layout)
     res.count(f"front[{front}]")
     mech_hint = None
     if defs and front != "api":
@@ -178,5 +183,5 @@ def replay(w: dict) -> Res:
     res = Res()
     files = {k: (v if not all(c in "0123456789abcdef" for c in v[:8]) or k.endswith(".s") else bytes.fromhex(v)) for k, v in w["files"].items()}
     p = {"prog": [{"k": "raw", "text": w["src"].rstrip("\n")}], "files": files, "tables": {}, "rom": "high" if w["mapping"] == "high" else "low"}
-    check_point(res, p, w["fmt"], w["mapping"], w["copier"], w["defs"], w["front"])
+    check_point(res, p, w["fmt"], w["mapping"], w["copier"], w["defs"], w["front"], w.get("layout", "cwd"))
     return res
